@@ -5,8 +5,8 @@ A change of the keyword wiring, of the date helpers' zone handling, of the isins
 the output paths or of the integer-list normaliser changes the generated file and one of these
 lemmas stops type-checking.
 
-Recorded (unrepaired) defects would be stated *relative to* `Known.*` (mirrors `known_findings.json`; D53
-is the open one): a known
+Recorded (unrepaired) defects would be stated *relative to* `Known.*` (mirrors `known_findings.json`; none
+is left for C15): a known
 mismatch builds, any new one breaks the lemma.
 -/
 import SnowModel.Core.Rrule
@@ -27,9 +27,6 @@ def wiringMismatches : List (Kw × Kw) := []
     to UTC; date-valued arguments take the start's zone -/
 def startZone : String := "timezone.utc"
 def dateArgZone : String := "self.start_date.tzinfo"
-/-- D53 (open): `_at_start_time` takes `self.start_date.time()` with its microseconds, while
-    `rrule` drops the microseconds of `dtstart` (`atStartTime … sUs …` in the model) -/
-def atStartTimeExpr : String := "datetime.combine(d, self.start_date.time(), tzinfo=self.start_date.tzinfo)"
 end Known
 
 /-- renames that are part of the design, not mismatches: `dtstart` is the normalised
@@ -98,7 +95,9 @@ theorem helpers_zone_pin :
       [("_normalize_start_date", "time", Known.startZone),
        ("_normalize_start_date", "start_date.replace", Known.startZone),
        ("_at_start_time", "datetime.combine", Known.dateArgZone)] ∧
-    Gen.Schedule.atStartTime = [Known.atStartTimeExpr] := by
+    Gen.Schedule.atStartTime =
+      ["start_time = self.start_date.time().replace(microsecond=0)",
+       "return datetime.combine(d, start_time, tzinfo=self.start_date.tzinfo)"] := by
   decide
 
 /-- `_normalize_until` as modelled by `normUntil`: datetime string → `parse_datetimespec`; date
